@@ -80,6 +80,15 @@ CLAIMED = {
             "Bt.C14 *_no_lookahead (7 selectors) and Bt.C15 window_prefix_determined / window_exact. This check decides the property by the metamorphic correspondence between two "
             "executions of the real code: every supplied value dated after a random cut is perturbed and all node histories up to the cut must be bit-identical.",
             "DESIGN 7 C04"),
+    "C11": ("11 theorems about the run-level model (Bt/Engine/Backtest.lean): Backtest.run with its has_run guard is idempotent (`run_idem`), a finished backtest is never "
+            "touched again, the flag is set also when the run raised, constructor arguments are kept; for every session - any number of backtests deep-copied from one template, any "
+            "interleaving of constructions and (repeated) runs, any algo function - the template is unchanged (`template_untouched`), every backtest ends as its freshly constructed self "
+            "or as that self run alone (`session_isolated`), runs of different backtests commute, running twice is running once, construction commutes with runs. Partial by nature: object "
+            "aliasing, interpreter hashing and global random state are not expressible in a value-semantics model; that the implementation IS this pure function is what the run decides: "
+            "`session` protocol (random schedules on the real code vs the model's has_run flags, set-up counts, comparison with the backtest run alone), twin runs in all orders and "
+            "interleavings, deep structural comparison of template and input frames before/after, re-run spy, fresh interpreters with PYTHONHASHSEED in {0,1,2,random}. The universe column "
+            "order (the repaired hash-order defect) is a function of the inputs only.",
+            "DESIGN 7 C11"),
 }
 # pid -> reason it is not claimed (yet)
 NOT_YET = {}
